@@ -573,6 +573,15 @@ func ruleEnforcerReadsThePolicyFile(c *eng.Ctx) {
 			c.Check(ok, "the policy enforcer is built on the configured model and policy files", c.Pos(cs.(ssa.Instruction)), "casbin.NewEnforcer(config.TLSClientAuthzModel, config.TLSClientAuthzPolicy)", "the enforcer in "+fn.Name()+" is not built on the configured policy file path: LoadPolicy on SIGHUP then re-reads whatever it was built on — text captured at start-up — and a permission removed from the policy file stays granted until the server is restarted")
 		}
 	}
+	for _, fn := range p.Funcs {
+		if !p.IsModuleFunc(fn) {
+			continue
+		}
+		for _, cs := range eng.CallsIn(fn, "github.com/casbin/casbin/v2.NewCachedEnforcer", "github.com/casbin/casbin/v2.NewSyncedCachedEnforcer") {
+			n++
+			c.Violate("authorisation decisions are made by the policy as it is now, not remembered", c.Pos(cs.(ssa.Instruction)), fn.Name()+" builds a caching enforcer: a decision evaluated while a reload is under way is written back into the cache after the cache was cleared, so a permission the new policy no longer grants stays granted for that (client, resource, action) for ever")
+		}
+	}
 	if n == 0 {
 		c.Unresolved("a casbin.NewEnforcer call in the module")
 	}
@@ -1072,4 +1081,209 @@ func ruleACursorStructIsDecodedIntoOnce(c *eng.Ctx) {
 	if n == 0 {
 		c.Unresolved("a proto.Cursor Unmarshal call in package server")
 	}
+}
+
+// Rules for the round-11 misses.
+
+// ruleNewPartitionCopiesTheServerDefaults (R16.7 extension, shared into C09): newPartition applies a stream's overrides to ITS OWN
+// copy of the server's StreamsConfig (a local filled field by field). A pointer to the server's configuration itself lets
+// ApplyOverrides write one stream's limits into the defaults every later stream starts from.
+func ruleNewPartitionCopiesTheServerDefaults(c *eng.Ctx) {
+	fn := c.Fn("server.(*Server).newPartition")
+	if fn == nil {
+		return
+	}
+	n := 0
+	for _, cs := range eng.CallsIn(fn, "server.StreamsConfig.ApplyOverrides") {
+		n++
+		recv := eng.Strip(cs.Common().Args[0])
+		_, fresh := recv.(*ssa.Alloc)
+		c.Check(fresh, "the per-stream overrides are applied to the partition's own copy of the defaults", c.Pos(cs.(ssa.Instruction)), "ApplyOverrides on a StreamsConfig allocated in newPartition", "newPartition applies a stream's overrides to "+eng.Describe(recv)+", not to a copy made in the call: the server-wide defaults are rewritten, and every stream created afterwards runs under the previous stream's retention limits, compaction and concurrency-control settings")
+	}
+	if n == 0 {
+		c.Unresolved("the ApplyOverrides call of newPartition")
+	}
+}
+
+// ruleMinISRIsTheConfiguredOne (R04.2 extension): the commit rule compares the in-sync set with the CONFIGURED minimum. A
+// minimum "capped at the number of replicas" acknowledges ALL-policy messages on a stream whose replication factor is
+// below the minimum the operator asked for.
+func ruleMinISRIsTheConfiguredOne(c *eng.Ctx) {
+	p := c.P
+	fn := c.Fn("server.(*Server).newPartition")
+	if fn == nil {
+		return
+	}
+	mf := p.Field("server", "partition", "minISR")
+	n := 0
+	for _, st := range eng.FieldStores(fn, func(fa *ssa.FieldAddr) bool { return fieldIs(fa, mf) }) {
+		n++
+		ok := true
+		what := ""
+		for _, s := range phiSources(st.Val) {
+			if !eng.LoadNamed("MinISR", nil)(eng.Strip(s)) {
+				ok, what = false, eng.Describe(s)
+			}
+		}
+		c.Check(ok, "a partition's minimum in-sync size is the configured one", c.Pos(st), "minISR: streamsConfig.MinISR", "newPartition derives the minimum ISR size from "+what+" instead of taking the configured value as it is: with a replication factor below the configured minimum the commit rule is satisfied by fewer replicas than the operator demanded, and ALL-policy messages are acknowledged")
+	}
+	if n == 0 {
+		c.Unresolved("the store of partition.minISR in newPartition")
+	}
+}
+
+// ruleReplicatorOwnsItsHeaderBuffer (R02.x ownership): every replicator goroutine writes the header of the message it is
+// sending into its own scratch buffer. A buffer shared by the replicators of a partition lets one follower be sent a
+// message under the header (offset, epoch, size) of another.
+func ruleReplicatorOwnsItsHeaderBuffer(c *eng.Ctx) {
+	fn := c.Fn("server.newReplicator")
+	if fn == nil {
+		fn = c.FnQuiet("server.(*partition).newReplicator")
+	}
+	if fn == nil {
+		return
+	}
+	n := 0
+	for _, st := range eng.FieldStores(fn, func(fa *ssa.FieldAddr) bool { return eng.FieldNameOf(fa) == "headersBuf" }) {
+		n++
+		c.Check(freshSlice(c.P, st.Val, map[ssa.Value]bool{}), "a replicator's header scratch buffer is its own", c.Pos(st), "headersBuf: make([]byte, …) per replicator", "newReplicator gives the replicator a header buffer it did not make ("+eng.Describe(st.Val)+"): the replicators of a partition run concurrently, so one follower can be sent message X under the header of message Y — it stores the payload at another offset and epoch than the leader")
+	}
+	if n == 0 {
+		// an array field (headersBuf [N]byte) is owned by construction
+		c.OK("a replicator's header scratch buffer is its own", c.P.Pos(fn.Pos()), "no slice is handed in")
+	}
+}
+
+// ruleBarrierUnderTheProposalLock (R07.10 extension): applyOperation validates a proposal against the FSM. The barrier that
+// brings the FSM up to date, the precondition check and the enqueue of the proposal lie in ONE critical section of the
+// proposal mutex: a barrier taken before the lock can be followed by another proposal's commit that the check never sees.
+func ruleBarrierUnderTheProposalLock(c *eng.Ctx) {
+	fn := c.Fn("server.(*raftNode).applyOperation")
+	if fn == nil {
+		return
+	}
+	bars := eng.CallsIn(fn, "github.com/hashicorp/raft.Raft.Barrier")
+	if len(bars) == 0 {
+		c.Unresolved("the Barrier call of applyOperation")
+		return
+	}
+	locks := func(in ssa.Instruction) bool {
+		ci, ok := in.(ssa.CallInstruction)
+		if !ok {
+			return false
+		}
+		r := eng.CalleeRef(ci.Common())
+		return r == "sync.Mutex.Lock" || r == "sync.RWMutex.Lock"
+	}
+	for _, b := range bars {
+		b := b
+		q := &eng.PathQuery{Fn: fn, FromEntry: true, CutInstr: locks, Target: func(x ssa.Instruction) bool { return x == b.(ssa.Instruction) }}
+		w := q.Find()
+		c.Check(w == nil, "the FSM barrier of a proposal is issued under the proposal lock", c.Pos(b.(ssa.Instruction)), "r.Lock() before r.Barrier(…)", "applyOperation can issue the barrier before it holds the proposal mutex ("+w.String()+"): an ISR shrink committed between the barrier and the lock is not applied yet when the precondition of a leader change is checked — a replica that is no longer in sync is elected")
+	}
+}
+
+// ruleReplicationRequestCheckedAndServedInOneSection (R02.4 extension, shared into C14): handleReplicationRequest compares the
+// request's leader epoch with the partition's and looks the replicator up under one hold of p.mu. Two sections hand an
+// epoch-N request to the replicator of epoch N+1.
+func ruleReplicationRequestCheckedAndServedInOneSection(c *eng.Ctx) {
+	fn := c.Fn("server.(*partition).handleReplicationRequest")
+	if fn == nil {
+		return
+	}
+	n := 0
+	eng.Instrs(fn, func(in ssa.Instruction) {
+		ci, ok := in.(ssa.CallInstruction)
+		if !ok {
+			return
+		}
+		switch eng.CalleeRef(ci.Common()) {
+		case "sync.RWMutex.Lock", "sync.RWMutex.RLock", "sync.Mutex.Lock":
+			if _, isDefer := in.(*ssa.Defer); !isDefer {
+				n++
+			}
+		}
+	})
+	c.Check(n == 1, "a replication request is checked and handed to its replicator under one hold of the partition lock", c.P.Pos(fn.Pos()), "one Lock in handleReplicationRequest", "handleReplicationRequest takes the partition lock "+map[bool]string{true: "more than once", false: "never"}[n > 1]+": a leader change between the epoch check and the replicator lookup hands a request made for one leader epoch to the replicator of the next")
+}
+
+// ruleEmptinessIsReadAfterTheLogEnd (R10.10 extension): Subscribe tells "the log was emptied by retention" from "nothing has been
+// published yet" by two reads, the log end first and the oldest offset second: a publish that lands between them can only
+// make the log look non-empty. Read the other way round it makes a log that just received its first message look emptied.
+func ruleEmptinessIsReadAfterTheLogEnd(c *eng.Ctx) {
+	fn := c.Fn("server.(*partition).Subscribe")
+	if fn == nil {
+		return
+	}
+	olds := eng.CallsIn(fn, cl+"CommitLog.OldestOffset")
+	news := eng.CallsIn(fn, cl+"CommitLog.NewestOffset")
+	if len(olds) == 0 || len(news) == 0 {
+		return
+	}
+	empt := eng.CmpEdges(fn, eng.Call(-1, cl+"CommitLog.OldestOffset"), eng.IntConst(-1), eng.EQ)
+	for _, o := range olds {
+		o := o
+		// the OldestOffset read that feeds an `== -1` test
+		feeds := false
+		for _, e := range empt {
+			if iff, ok := e.From.Instrs[len(e.From.Instrs)-1].(*ssa.If); ok {
+				if bo, isB := iff.Cond.(*ssa.BinOp); isB && (eng.Strip(bo.X) == o.Value() || eng.Strip(bo.Y) == o.Value()) {
+					feeds = true
+				}
+			}
+		}
+		if !feeds {
+			continue
+		}
+		q := &eng.PathQuery{Fn: fn, FromAfter: []ssa.Instruction{o.(ssa.Instruction)}, Target: func(x ssa.Instruction) bool {
+			for _, nw := range news {
+				if x == nw.(ssa.Instruction) {
+					// only a NewestOffset read that is compared with the stop offset in the same decision: the one right behind
+					return x.Block() == o.(ssa.Instruction).Block() || len(x.Block().Preds) == 1 && x.Block().Preds[0] == o.(ssa.Instruction).Block()
+				}
+			}
+			return false
+		}}
+		w := q.Find()
+		c.Check(w == nil, "the `emptied by retention` test reads the log end before the oldest offset", c.Pos(o.(ssa.Instruction)), "stopOffset <= NewestOffset() && OldestOffset() == -1, in this order", "partition.Subscribe reads OldestOffset() before the NewestOffset() it is combined with ("+w.String()+"): a first publish landing between the two reads makes a log that has never been cleaned look emptied by retention, and a bounded subscription is refused with `Stream is empty`")
+	}
+}
+
+// ruleAllPolicyAlwaysGoesThroughTheCommitQueue (R04.1, shared into C11): a message published with the ALL policy — a SetCursor is one —
+// is acknowledged from the commit loop, after the high watermark moved. processPendingMessage acks directly only for LEADER
+// and returns before the queue only when the policy is not ALL; a fast path that acks ALL itself answers before the
+// watermark moves, and a FetchCursor in that window reads (and caches) the previous cursor.
+func ruleAllPolicyAlwaysGoesThroughTheCommitQueue(c *eng.Ctx) {
+	fn := c.Fn("server.(*partition).processPendingMessage")
+	if fn == nil {
+		return
+	}
+	puts := eng.CallsIn(fn, "github.com/Workiva/go-datastructures/queue.Queue.Put")
+	if len(puts) == 0 {
+		c.Unresolved("the commitQueue.Put of processPendingMessage")
+		return
+	}
+	isALL := func(v ssa.Value) bool {
+		k, ok := eng.Strip(v).(*ssa.Const)
+		return ok && eng.EnumName(k) == "AckPolicy_ALL"
+	}
+	isLEADER := func(v ssa.Value) bool {
+		k, ok := eng.Strip(v).(*ssa.Const)
+		return ok && eng.EnumName(k) == "AckPolicy_LEADER"
+	}
+	pol := eng.LoadNamed("AckPolicy", nil)
+	notAll := eng.EdgesWhere(fn, func(a eng.AtomView) bool {
+		return a.RelHolds(pol, isALL, eng.NE) || a.RelHolds(pol, isLEADER, eng.EQ)
+	})
+	isPut := func(in ssa.Instruction) bool {
+		for _, pc := range puts {
+			if in == pc.(ssa.Instruction) {
+				return true
+			}
+		}
+		return false
+	}
+	q := &eng.PathQuery{Fn: fn, FromEntry: true, Target: isReturn, CutInstr: isPut, CutEdges: notAll}
+	w := q.Find()
+	c.Check(w == nil && len(notAll) > 0, "an ALL-policy message always enters the commit queue", c.P.Pos(fn.Pos()), "every way out of processPendingMessage that skips commitQueue.Put crosses AckPolicy != ALL", "processPendingMessage can return without queueing a message whose policy may be ALL ("+w.String()+"): acknowledged on a fast path, its ack leaves before the high watermark moves — a FetchCursor right after a successful SetCursor reads the previous cursor and caches it")
 }
